@@ -16,6 +16,8 @@ TRUSTED_BASE = [
 class Ctx:
     def __init__(self, prop, tier, seed, replay=None):
         self.prop, self.tier, self.seed, self.replay = prop, tier, seed, replay
+        import shutil
+        shutil.rmtree(os.path.join(lib.WORK, "replay", prop), ignore_errors=True)
         self.obligations = []      # (name, ok, detail)
         self.corr = []             # dicts
         self.violations = []       # dicts: cls, text, replay_obj
